@@ -89,14 +89,12 @@ def paintNote (im : List (Nat × Nat)) (m : Mapping) (f : Frame) (note : Nat) (c
 /-- `note - byte(offset)` in `uint8` -/
 def baseOf (note : Nat) (offset : Int) : Nat := u8 ((note : Int) - (u8 offset : Int))
 
-/-- the frame before the note highlights: unavailable colour, strip LEDs, action keys, pitch-class colours -/
-def frameBase (checked : Bool) (d : Dev) (devName : String) (leds : List String) (shifted : RGB × RGB × RGB)
-    (m : Mapping) : Frame :=
+/-- the frame before the keyboard mapping is painted: unavailable colour, strip LEDs, action keys -/
+def framePre (checked : Bool) (d : Dev) (devName : String) (leds : List String) : Frame :=
   let cfg := d.cfg
   let cols := cfg.colors
   let im := indexMap leds
   let ni := nameToIndex leds
-  let offset : Int := d.semitone + d.octave * 12
   let f : Frame := .ok (List.replicate leds.length cols.unavailable)
   let f := (stripLeds devName).foldl (fun f name =>
     if checked then (match alookup name ni with | some i => setAt f i off | none => f)
@@ -120,21 +118,27 @@ def frameBase (checked : Bool) (d : Dev) (devName : String) (leds : List String)
   let f := pa f .channelDown cc
   let f := if d.channel = 0 then pa f .channelDown (third cc) else f
   let f := if d.channel = 15 then pa f .channelUp (third cc) else f
-  let f := pa f .multinote white1
-  -- keyboard mapping: pitch-class colours
+  pa f .multinote white1
+
+/-- pitch-class colour of MIDI note `x` in mapping `m` (`shifted` = white, black, c) -/
+def classColor (m : Mapping) (shifted : RGB × RGB × RGB) (x : Nat) : RGB :=
+  if m.name = "Control" then shifted.1
+  else match x % 12 with
+    | 0 => shifted.2.2
+    | 1 | 3 | 6 | 8 | 10 => shifted.2.1
+    | _ => shifted.1
+
+/-- the frame before the note highlights: `framePre`, then the keyboard mapping in pitch-class colours -/
+def frameBase (checked : Bool) (d : Dev) (devName : String) (leds : List String) (shifted : RGB × RGB × RGB)
+    (m : Mapping) : Frame :=
+  let im := indexMap leds
+  let offset : Int := d.semitone + d.octave * 12
   (m.midi.filter (fun p => p.1.1 = "")).foldl (fun f p =>
     match alookup p.1.2 im with
     | none => f
     | some i =>
       let x : Int := (p.2.note : Int) + offset
-      if x < 0 ∨ x > 127 then f else
-      let col :=
-        if m.name = "Control" then shifted.1
-        else match x.toNat % 12 with
-          | 0 => shifted.2.2
-          | 1 | 3 | 6 | 8 | 10 => shifted.2.1
-          | _ => shifted.1
-      setAt f i col) f
+      if x < 0 ∨ x > 127 then f else setAt f i (classColor m shifted x.toNat)) (framePre checked d devName leds)
 
 /-- MIDI-input notes: channel colours from 15 down to 0, then the current channel in the external colour -/
 def frameExt (d : Dev) (leds : List String) (m : Mapping) (f : Frame) : Frame :=
